@@ -32,6 +32,7 @@ func RunHistory(seed uint64, r *rng.R, work string, opt apphist.Options, cfg Con
 	s.Obs = obs
 	s.Init()
 	nblocks := r.Range(opt.MaxBlocks/2, opt.MaxBlocks)
+	planned := opt.PlanScenario
 	for b := 0; b < nblocks && s.N.Dead == ""; b++ {
 		if cfg.CheckTx && r.Chance(50) {
 			s.Check(s.GenTx())
@@ -41,8 +42,15 @@ func RunHistory(seed uint64, r *rng.R, work string, opt apphist.Options, cfg Con
 		}
 		// scenario templates (shapes random generation reaches too rarely)
 		quiet := s.Quiet(s.Height + 1)
-		if r.Chance(25) && !quiet {
+		if planned > 0 && b >= 2 && !quiet && s.ForceScenario == 0 {
+			s.ForceScenario = planned // every template is planned in some history of every run
+		}
+		if (s.ForceScenario > 0 || r.Chance(25)) && !quiet {
+			wasPlanned := s.ForceScenario == planned
 			if sc := s.Scenario(); sc != nil {
+				if wasPlanned {
+					planned = 0
+				}
 				for _, bz := range sc.Deliver() {
 					o, _ := s.Deliver(bz)
 					s.After(bz, o)
@@ -200,6 +208,7 @@ func Run(seed uint64, tier, work, driver string, replay []string, cfg Config) *c
 		hw := fmt.Sprintf("%s/h%d", work, i)
 		_ = os.MkdirAll(hw, 0755)
 		mon := appmon.New()
+		opt.PlanScenario = i%apphist.NumScenarios + 1
 		s, err := RunHistory(seed*1000+uint64(i), hr, hw, opt, cfg, mon)
 		if err != nil {
 			res.Error = err.Error()
